@@ -15,7 +15,7 @@
   `current_is_repaired` is the obligation that fails on a tree without the repairs.
   The `asIs_*` theorems are kernel-checked witnesses of what the unrepaired code does.
 -/
-import Mhd.Proofs.TmoPend
+import Mhd.Proofs.TmoSend
 import Mhd.Proofs.TmoConv
 
 namespace Mhd.C10
@@ -191,17 +191,17 @@ theorem select_round_closes_every_expired (hsp : Variant.current.savePrev = true
     (cfg : Cfg) (hc : cfg.dtmo ≤ tmoMax) (ops : List Op) :
     let d := run Variant.current (Daemon.init cfg) ops
     d.cfg.epoll = false → d.now < 2 ^ 62 → d.back ≤ jumpBackLimit → ∀ i, i ∈ d.conns → (d.c i).closed = false →
-      (d.c i).unread = false → (d.c i).peerClosed = false →
+      (d.c i).unread = false → (d.c i).peerClosed = false → (d.c i).replying = false →
       (d.c i).tmo ≠ 0 → (d.c i).tmo < d.now - (d.c i).la →
       Event.tmoClose i (d.c i).aware ∈ (round Variant.current d).2 := by
-  intro d he hnow hback i hi hcl hu hp h0 hidle
+  intro d he hnow hback i hi hcl hu hp hrep h0 hidle
   have h : Inv d := inv_reachable cfg hc ops
   have hT : (d.c i).tmo < 2 ^ 63 := by have := h.tmoB i; simp only [tmoMax, msPerSec] at this; omega
   have ht : checkTimedOut d.now (d.c i) = true :=
     (checkTimedOut_iff_jump d.now (d.c i) (by have := h.laLe i; omega) hnow hT).2 ⟨h.connsS i hi, h0, hidle⟩
   unfold round
   simp only [he, Bool.false_eq_true, if_false]
-  exact roundSelect_complete current_is_repaired hsp h i hi hcl ⟨hu, hp⟩ ht
+  exact roundSelect_complete current_is_repaired hsp h i hi hcl ⟨hu, hp⟩ hrep ht
 
 /-- The manual-timeout list is scanned completely by the epoll loop: every expired member is closed
     (any state, any variant). -/
@@ -220,7 +220,7 @@ theorem manual_scan_closes_expired (d : Daemon) (i : Id) (hnd : d.manual.Nodup) 
    `select_round_closes_every_expired` above. -/
 theorem select_round_closes_expired_partial (v : Variant) (rs : List Id) (l : List Id) (d : Daemon) (i : Id)
     (hnd : l.Nodup) (hi : i ∈ l)
-    (hquiet : ∀ j, j ∈ l → j ∈ d.conns ∧ (d.c j).closed = false ∧ rs.contains j = false)
+    (hquiet : ∀ j, j ∈ l → j ∈ d.conns ∧ (d.c j).closed = false ∧ rs.contains j = false ∧ (d.c j).replying = false)
     (ht : checkTimedOut d.now (d.c i) = true) :
     Event.tmoClose i (d.c i).aware ∈ (travSel v rs l d).2 :=
   travSel_complete v rs l d i hnd hi hquiet ht
@@ -278,6 +278,50 @@ theorem hint_none_only_when_idle (cfg : Cfg) (hc : cfg.dtmo ≤ tmoMax) (ops : L
     a resume request, queued new connections, a non-empty eready list) — every state, every variant. -/
 theorem hint_zero_when_pending (v : Variant) (d : Daemon) (hp : pending d = true) : hint v d = some 0 :=
   hint_pending v d hp
+
+/-! ### idle means no socket I/O progress: sends count, partial ones included -/
+
+/-- **Every send that makes progress restarts the timer** (the regenerated table of the call sites of
+    `MHD_update_last_activity_`): in each of the five states in which `MHD_connection_handle_write` sends
+    (100 Continue, header block, normal body, chunked body, footers) the call follows the send and no
+    completion test (`check_write_done`, offset comparison) stands between them — a partial send counts. -/
+theorem partial_send_is_activity :
+    ∀ s, s ∈ sendStates → activitySites.any (fun t =>
+      t.1 == "MHD_connection_handle_write" && t.2.1 == s && t.2.2.1 && t.2.2.2) = true := by
+  decide
+
+/-- … and so does every successful `recv`. -/
+theorem recv_is_activity :
+    activitySites.any (fun t => t.1 == "MHD_connection_handle_read" && t.2.2.1 && t.2.2.2) = true := by
+  decide
+
+/-- In the model: a replying connection whose socket takes more bytes in the round (a parameter of the
+    round: any set of connections, so every pattern of partial sends) is stamped with the current time
+    and is not closed for timeout by that `call_handlers` — however long it was idle before. -/
+theorem send_progress_restarts_timer (v : Variant) (d : Daemon) (i : Id) (r : Bool)
+    (hi : i ∈ d.normal ∨ (d.c i).tmo ≠ d.cfg.dtmo) (hc : (d.c i).closed = false) (hr : (d.c i).replying = true)
+    (hs : (d.c i).suspended = false) (h0 : (d.c i).tmo ≠ 0) (hw : i ∈ d.wset) :
+    ((writeStep v d i).1.c i).la = d.now ∧ ∀ a, Event.tmoClose i a ∉ (callHandlersSel0 v d i r).2 :=
+  send_progress_is_activity v d i r hi hc hr hs h0 hw
+
+/-- A replying connection without progress in the round is closed exactly like an idle one. -/
+theorem replying_without_progress_times_out (v : Variant) (d : Daemon) (i : Id) (r : Bool)
+    (hc : (d.c i).closed = false) (hr : (d.c i).replying = true) (hw : i ∉ d.wset) (hf : i ∉ d.fset)
+    (ht : checkTimedOut d.now (d.c i) = true) :
+    Event.tmoClose i (d.c i).aware ∈ (callHandlersSel0 v d i r).2 :=
+  no_progress_times_out v d i r hc hr hw hf ht
+
+/-- a reply drained in pieces 4 s apart under a 10 s timeout: never closed; then 10001 ms without any
+    progress: closed with the timeout code (the history theorems `inv_reachable`,
+    `round_closes_only_expired`, `hint_le_earliest_deadline` quantify over such histories too) -/
+theorem slow_reader_is_not_idle :
+    let v : Variant := ⟨true, true, true, true, true, true, true⟩
+    let ops : List Op := [.arrive 0, .round, .get 0 false, .round, .tick 4000, .roundw [0] [], .tick 4000, .roundw [0] [],
+      .tick 4000, .roundw [0] [], .tick 4000, .roundw [0] []]
+    let d := run v (Daemon.init ⟨false, 10000, true⟩) ops
+    d.now = clock0 + 16000 ∧ (d.c 0).closed = false ∧ (d.c 0).la = d.now ∧ hint v d = some 10000 ∧
+    (step v (run v d [.tick 10001]) .round).map (·.2) = some [Event.tmoClose 0 true] := by
+  decide
 
 /-! ### "zero whenever work is already pending": the flag is an accumulation over the round -/
 
